@@ -16,6 +16,7 @@ func init() {
 	vHarnesses["H_C12_iter"] = H_C12_iter
 	vHarnesses["H_C12_two"] = H_C12_two
 	vHarnesses["H_C12_queries"] = H_C12_queries
+	vHarnesses["H_C12_lazy"] = H_C12_lazy
 }
 
 type c12Gen struct {
@@ -237,4 +238,78 @@ func H_C12_queries(inst int) {
 	drain()
 	verify(runtime.NumGoroutine() == before, "the query's goroutine did not terminate after Close")
 	reach("c12/queries", true)
+}
+
+
+// ---- Close ends the search: no goal of the query runs after it, whatever nondeterministic goal is pending ----
+
+// c12Lazy: nondeterministic goals (built-in and library predicates with several answers), each followed by tick/0.
+var c12Lazy = []struct {
+	q string
+	n int // number of answers (at least 2)
+}{
+	{"sub_atom(banana, B, _, _, ana), tick.", 2},
+	{"sub_atom(abc, B, L, A, S), tick.", 10},
+	{"atom_concat(X, Y, abc), tick.", 4},
+	{"between(1, 3, X), tick.", 3},
+	{"member(X, [a, b, c]), tick.", 3},
+	{"append(X, Y, [a, b]), tick.", 3},
+	{"select(X, [a, b, c], R), tick.", 3},
+	{"nth0(I, [a, b, c], E), tick.", 3},
+	{"nth1(I, [a, b, c], E), tick.", 3},
+	{"length(L, N), tick.", -1},
+	{"clause(lz(X), B), tick.", 3},
+	{"retract(lz(X)), tick.", 3},
+	{"current_op(P, T, mod), tick ; current_op(P, T, rem), tick.", 2},
+	{"current_prolog_flag(F, V), tick.", 5},
+	{"bagof(X, lz2(X, Y), L), tick.", 2},
+	{"sub_atom(hello, 1, L, A, S), tick.", 5},
+	{"lz(X), tick.", 3},
+	{"(X = a ; X = b ; X = c), tick.", 3},
+	{"repeat, tick.", -1},
+	{"stream_property(S, alias(A)), tick.", 2},
+	{"current_op(P, xfx, N), tick.", 5},
+	{"call_nth(lz(X), N), tick.", 3},
+	{"phrase(lzg(X), [a], R), tick.", 2},
+	{"findall(X, lz(X), L), member(Y, L), tick.", 3},
+	{"atom_length(A, L), tick.", -2},
+}
+
+func H_C12_lazy(inst int) {
+	c := c12Lazy[inst]
+	note("query", c.q)
+	i := newFull()
+	ticks := 0
+	i.Register0(engine.NewAtom("tick"), func(vm *engine.VM, k engine.Cont, env *engine.Env) *engine.Promise {
+		return engine.Delay(func(context.Context) *engine.Promise {
+			ticks++
+			return k(env)
+		})
+	})
+	verify(i.Exec(":- dynamic(lz/1). lz(1). lz(2). lz(3). lz2(1, a). lz2(2, b). lzg(1) --> [a]. lzg(2) --> [a].") == nil, "harness: setup failed")
+	before := runtime.NumGoroutine()
+	sols, err := i.Query(c.q)
+	verify(err == nil, "Query returned an error")
+	take := 1 + choice("take", 2) // answers taken before Close
+	got := 0
+	for got < take && sols.Next() {
+		got++
+	}
+	switch {
+	case c.n == -2:
+		verify(got == 0 && sols.Err() != nil, "a query ending in an error delivered an answer")
+	case c.n == 0:
+		verify(got == 0, "a query without answers delivered one")
+	case c.n > 0 && c.n < take:
+		verify(got == c.n, "fewer answers than the query has")
+	default:
+		verify(got == take, "Next returned false although answers remain")
+	}
+	t0 := ticks // the search goroutine is parked (answer handed over, or search over) whenever Next has returned
+	verify(sols.Close() == nil, "Close returned an error")
+	drain()
+	verify(ticks == t0, "goals ran after Close")
+	verify(runtime.NumGoroutine() == before, "the query's goroutine did not terminate after Close")
+	verify(!sols.Next(), "Next after Close returned true")
+	reach("c12/lazy", true)
 }
